@@ -4,4 +4,5 @@ EXTENDS Inbox
 W4 == <<"w1", "w2", "w3", "w4">>
 W5 == <<"w1", "w2", "w3", "w4", "w5">>
 W6 == <<"w1", "w2", "w3", "w4", "w5", "w6">>
+W7 == <<"w1", "w2", "w3", "w4", "w5", "w6", "w7">>
 ====
